@@ -33,6 +33,9 @@ def cases(ctx):
 def options(rng):
     o = M.options(rng)
     o["words"] = sorted(set(o["words"]) | set(rng.sample(["netconan", "removed", "scrubbed", "sensitive", "line"], rng.randint(0, 3))))
+    if rng.random() < 0.3:
+        # a listed word that is ALSO a built-in reserved word
+        o["words"] = sorted(set(o["words"]) | {rng.choice(["internal", "private", "admin", "local"])})
     if rng.random() < 0.5:
         w = rng.choice(o["words"])
         o["reserved"] = [rng.choice(["My", "big-", ""]) + w + rng.choice(["Box", "-lab", "01"]), "MyZurichBox"]
@@ -67,6 +70,9 @@ def check_case(ctx, case):
     if src and not src.endswith("\n"):
         src += "\n"
     src += "".join(rng.sample(OVERLAP_LINES, rng.randint(1, 4)))
+    for w in opts["words"]:
+        if w in ("internal", "private", "admin", "local"):
+            src += "snmp-server community %s RO\npassword %s\n description %s link\n" % (w, w, w)
     if opts.get("reserved"):
         # tokens that are the user's reserved words (they contain listed words): every stage that honours
         # reserved words must do so whatever else is switched on
